@@ -86,9 +86,9 @@ def remove_task(ap, path):
 
 
 def run(ctx, prop, props_files, fams, oracle_names, assumptions, level_rule, model=True, extra_cases=None, extra_oracle=None,
-        post=None, model_is_oracle=False, all_scenarios=False):
+        post=None, model_is_oracle=False, all_scenarios=False, first_cases=None):
     nob, ndis, failing, files = common.obligations(ctx, props_files)
-    aps = load_corpus(prop)
+    aps = (first_cases(ctx) if first_cases else []) + load_corpus(prop)       # first_cases: one per worker process, run before anything else
     ncorp = len(aps)
     for fam, nq, nt in fams:
         aps += gens.family(ctx, fam, ctx.n(nq, nt))
